@@ -9,17 +9,10 @@ from sa.poly import RF, fn_atom
 from sa.selftest import Edit, Variant
 from sa.sym import ClassRef, Cond, Interp, Rec, closure_of, explore, method_of, to_rf
 
-EXPLANATION = (
-    "Soundness of a heuristic search is a guard property: (R-GUARD) every value returned by affine_between is None, or the identity directly "
-    "under s1.almost_equals(s2, tolerance), or _round(affine, s1, s2, tolerance) directly under a successful _try_affine(affine, s1, s2, "
-    "tolerance, ..) on the same four variables; _round returns only a matrix for which _try_affine has just succeeded against s2, or its "
-    "unmodified first parameter; _try_affine applies the matrix to s1 and compares with s2; almost_equals compares letters, argument counts "
-    "(zip_longest) and every argument against the tolerance; the translation candidate is tried before any bail-out. (R-CASE) what the guard "
-    "verifies is the affine image: _affine_callback, interpreted per command letter of an affine-friendly path, maps absolute coordinates with "
-    "map_point and relative ones with map_vector on every coordinate pair. For arcs the affine image also changes the x-axis-rotation under "
-    "rotation/shear and flips the sweep flag under mirroring; the callback never writes those arguments (known finding F9)."
-)
-ASSUMPTIONS = ["completeness of the search beyond 'the exact translation is tried first' is not decided"]
+from sa.texts import T as _T
+
+EXPLANATION = _T["C20"]["explanation"] + " Not decided: " + _T["C20"]["not_decided"] + "."
+ASSUMPTIONS = _T["C20"]["assumptions"]
 P = "C20"
 S = RF.sym
 
